@@ -78,12 +78,16 @@ fn main() {
             sim::write_trace(&out, &lines);
             println!("{}", json!({"summary": {"scenarios": to + 1 - from, "lines": lines.len()}}));
         }
-        "browse" => {
+        "browse" | "resolve" | "flood" => {
             let from: u64 = a.get("from").and_then(|s| s.parse().ok()).unwrap_or(1);
             let to: u64 = a.get("to").and_then(|s| s.parse().ok()).unwrap_or(10);
             let mut lines = Vec::new();
             for id in from..=to {
-                lines.extend(browse::scenario(id, seed, thorough, "browse"));
+                match cmd.as_str() {
+                    "browse" => lines.extend(browse::scenario(id, seed, thorough, "browse")),
+                    "resolve" => lines.extend(browse::scenario_resolve(id, seed, thorough)),
+                    _ => lines.extend(browse::scenario_flood(id, seed, thorough)),
+                }
             }
             sim::write_trace(&out, &lines);
             println!("{}", json!({"summary": {"scenarios": to + 1 - from, "lines": lines.len()}}));
